@@ -853,7 +853,8 @@ func (x *spCtx) hasMatchPhrase() bool {
 }
 
 func (x *spCtx) hasUnknownOpOrIn() bool {
-	return x.full.has(func(c *spCond) bool { return (c.T == "strop" && c.Op != "matchphrase") || c.T == "in" })
+	// (F-C20-3 is open for IN only: the LIKE / MATCH part was repaired by f336768)
+	return x.full.has(func(c *spCond) bool { return c.T == "in" })
 }
 
 // judge one real scan result; returns "" when it is sound (or attributed), else the violation text
